@@ -61,6 +61,7 @@ func TestVerifC09Entropy(t *testing.T) {
 		nops := 4 + rng.Intn(8)
 		var ops, outs []string
 		full := map[[16]byte]int{}
+		short := map[[16]byte]int{}
 		reseeds := 0
 		for i := 0; i < nops; i++ {
 			n := lens[rng.Intn(len(lens))]
@@ -117,6 +118,18 @@ func TestVerifC09Entropy(t *testing.T) {
 						map[string]any{"case": c, "count0": count0, "seed0": hx(seed0[:]), "toy_k": k0, "ops": ops, "outs": outs})
 				}
 				full[b] = i
+			}
+			// ... and so must every 12-byte prefix be (what an AEAD nonce is): a repeat within a dozen reads is no accident
+			if len(p) >= 12 && len(p) < 16 {
+				var b [16]byte
+				copy(b[:12], p[:12])
+				b[15] = 0xA5
+				rep.Monitors["nonce12-distinct"]++
+				if j, dup := short[b]; dup {
+					rep.violate("entropy-nonce12-repeat", fmt.Sprintf("the generator returned the same 12-byte nonce twice (operations %d and %d of the case)", j, i),
+						map[string]any{"case": c, "count0": count0, "seed0": hx(seed0[:]), "toy_k": k0, "ops": ops, "outs": outs})
+				}
+				short[b] = i
 			}
 		}
 		// what AES does under the scripted keys: the chains the model needs, from an aes.Block of our own
